@@ -366,6 +366,12 @@ fn hierarchy__order_and_restriction() {
             }
             n += 1;
         }
+        // ids are pairwise distinct whatever the order of insertions (rank order and creation order differ)
+        {
+            let ids: Vec<usize> = order.iter().map(|k| s.dimensions["H"].get_attribute(k).unwrap().get_id()).collect();
+            let distinct: BTreeSet<usize> = ids.iter().cloned().collect();
+            vchk!(distinct.len() == ids.len(), "C02/C03: two live attributes of hierarchy {order:?} share an id ({ids:?}): they map to the same rights and open each other's encapsulations");
+        }
         // serialization keeps the hierarchy (order included)
         {
             use cosmian_crypto_core::bytes_ser_de::Serializable;
@@ -384,7 +390,7 @@ fn hierarchy__order_and_restriction() {
             vchk!(names2 == o2, "C03: after deleting {} from {order:?} the order is {names2:?}", order[del]);
             for (rank, name) in o2.iter().enumerate() {
                 let want = s.dimensions["H"].get_attribute(name).unwrap();
-                vchk!(s2.dimensions["H"].get_attribute(name) == Some(want), "C02/C03: after deleting {} from {order:?}, the name {name} resolves to another attribute (or to none)", order[del]);
+                vchk!(s2.dimensions["H"].get_attribute(name) == Some(want), "C02/C03/C09: after deleting {} from {order:?}, the name {name} resolves to another attribute (or to none: a spurious 'attribute not found')", order[del]);
                 match s2.dimensions["H"].restrict(name.clone()).unwrap() {
                     Dimension::Hierarchy(d) => {
                         let got: Vec<(String, Attribute)> = d.iter().map(|(k, v)| (k.clone(), v.clone())).collect();
